@@ -1,14 +1,19 @@
 package main
 
 import (
+	"context"
 	"fmt"
 	"os"
 	"path/filepath"
 	"strings"
+	"sync"
 	"syscall"
 	"time"
 
 	"github.com/nextdns/nextdns/discovery"
+	"github.com/nextdns/nextdns/proxy"
+	"github.com/nextdns/nextdns/resolver"
+	"github.com/nextdns/nextdns/resolver/query"
 )
 
 // slowrefresh area (C15, "every reply is one that some sequential order of the same queries could
@@ -83,6 +88,77 @@ func runSlowRefresh(dir, format, ip, oldName, newName string) string {
 	return fmt.Sprintf("A=%s B=%s C=%s", a, b, c)
 }
 
+// slowhosts (C12): the first load of the hosts file is slow (named pipe); a second query for a
+// listed name, in another spelling, arrives while it is in progress. Both must be answered
+// locally: a lookup that overtakes the load finds empty tables and the name goes upstream.
+//   case: slowhosts <namehex> <ip>      impl: A=<L|U> B=<L|U>   (L answered locally, U asked the upstream)
+func runSlowHosts(dir, name, ip string) string {
+	pipe := filepath.Join(dir, "hosts.pipe")
+	_ = os.Remove(pipe)
+	if err := syscall.Mkfifo(pipe, 0644); err != nil {
+		return "ERR mkfifo " + err.Error()
+	}
+	discovery.VerifSetHostsFiles([]string{pipe})
+	up := &fakeUp{bytes: []byte{0, 0, 0x81, 0x83, 0, 0, 0, 0, 0, 0, 0, 0}, n: 12}
+	var upMu sync.Mutex
+	p := proxy.Proxy{Upstream: lockedUp{up, &upMu}, LocalResolver: discovery.Resolver{&discovery.Hosts{}}}
+	ask := func(id int, nm string) string {
+		payload := append(be16(id), 1, 0, 0, 1, 0, 0, 0, 0, 0, 0)
+		payload = append(payload, nameToWire(nm)...)
+		payload = append(payload, 0, 1, 0, 1)
+		q, err := query.New(payload, loopback, loopback)
+		if err != nil {
+			return "E"
+		}
+		upMu.Lock()
+		before := up.calls
+		upMu.Unlock()
+		buf := make([]byte, 4096)
+		ctx, cancel := context.WithTimeout(context.Background(), 3*time.Second)
+		defer cancel()
+		n, _, _ := p.Resolve(ctx, q, buf)
+		upMu.Lock()
+		after := up.calls
+		upMu.Unlock()
+		if after != before || n <= 0 {
+			return "U"
+		}
+		return "L"
+	}
+	aCh, bCh := make(chan string, 1), make(chan string, 1)
+	go func() { aCh <- ask(1, name) }()
+	time.Sleep(60 * time.Millisecond)
+	go func() { bCh <- ask(2, strings.ToUpper(name)) }()
+	time.Sleep(90 * time.Millisecond)
+	if w, err := os.OpenFile(pipe, os.O_WRONLY|syscall.O_NONBLOCK, 0); err == nil {
+		_, _ = w.Write([]byte("# hosts\n" + ip + " " + strings.TrimSuffix(name, ".") + "\n"))
+		w.Close()
+	} else {
+		return "ERR pipe " + err.Error()
+	}
+	var a, b string
+	for i := 0; i < 2; i++ {
+		select {
+		case a = <-aCh:
+		case b = <-bCh:
+		case <-time.After(4 * time.Second):
+			return "TIMEOUT"
+		}
+	}
+	return fmt.Sprintf("A=%s B=%s", a, b)
+}
+
+type lockedUp struct {
+	u  *fakeUp
+	mu *sync.Mutex
+}
+
+func (l lockedUp) Resolve(ctx context.Context, q query.Query, buf []byte) (int, resolver.ResolveInfo, error) {
+	l.mu.Lock()
+	defer l.mu.Unlock()
+	return l.u.Resolve(ctx, q, buf)
+}
+
 func init() {
 	areas["slowrefresh"] = func(c *Ctx) error {
 		dir, err := os.MkdirTemp("", "nvslow")
@@ -92,6 +168,11 @@ func init() {
 		defer os.RemoveAll(dir)
 		one := func(l string) {
 			f := strings.Fields(l)
+			if len(f) == 3 && f[0] == "slowhosts" {
+				c.Emit(l, runSlowHosts(dir, string(unhx(f[1])), f[2]))
+				c.Stat("source:hosts")
+				return
+			}
 			if len(f) != 5 || f[0] != "slowrefresh" {
 				c.Emit(l, "bad-op")
 				return
@@ -112,6 +193,10 @@ func init() {
 				format = "isc-dhcpd"
 			}
 			ip := fmt.Sprintf("10.%d.%d.%d", r.Intn(256), r.Intn(256), 1+r.Intn(254))
+			if i%3 == 2 {
+				one(fmt.Sprintf("slowhosts %s %s", hx([]byte(fmt.Sprintf("nas%d.lan.", r.Intn(1000)))), ip))
+				continue
+			}
 			one(fmt.Sprintf("slowrefresh %s %s %s %s", format, hx([]byte(ip)), hx([]byte(fmt.Sprintf("host-old%d", r.Intn(1000)))), hx([]byte(fmt.Sprintf("Host-New%d", r.Intn(1000))))))
 		}
 		return nil
